@@ -123,10 +123,11 @@ def c_uart_tx():
     h.functions = ["litex.soc.cores.uart.RS232PHYTX.__init__", "litex.soc.cores.uart.RS232ClkPhaseAccum.__init__"]
     return h
 
-def c_spi(dw=8, mode="raw"):
-    d = mk(SPIMaster, None, dw, 100e6, 25e6, with_csr=False, mode=mode)
+def c_spi(dw=8, mode="raw", ncs=1):
+    pads_in = None if ncs == 1 else Record([("clk", 1), ("cs_n", ncs), ("mosi", 1), ("miso", 1)])          # several chip selects: the framing clause is per line
+    d = mk(SPIMaster, pads_in, dw, 100e6, 25e6, with_csr=False, mode=mode)
     pads = d.pads
-    h = HwCheck(f"SPIMaster(dw={dw},{mode})", d, [d.start, d.length, d.mosi, d.cs, d.cs_mode, d.loopback, d.clk_divider, pads.miso])
+    h = HwCheck(f"SPIMaster(dw={dw},{mode}{',cs=' + str(ncs) if ncs > 1 else ''})", d, [d.start, d.length, d.mosi, d.cs, d.cs_mode, d.loopback, d.clk_divider, pads.miso])
     st, enc = d.fsm.state, d.fsm.encoding
     idle, sstart, run, stop = [eqc(h.v(st), enc[n]) for n in ("IDLE", "START", "RUN", "STOP")]
     busy = z3.Not(idle)
@@ -156,7 +157,8 @@ def c_spi(dw=8, mode="raw"):
     h.ensure("ens.clk-idle-low", z3.Implies(z3.Not(run), z3.Not(b(h.v(pads.clk)))))                      # clock idles low (mode 0)
     # chip-select framing: asserted (low) one cycle after every cycle of the transfer proper, for the selected chip only
     xfer = z3.Or(run, stop, z3.And(sstart, cnt == div - 1))
-    h.ensure("ens.cs", h.n(pads.cs_n) == ~(h.v(d.cs) & z3.If(z3.Or(xfer, b(h.v(d.cs_mode))), K(1, 1), K(0, 1))))
+    ncs_ = h.v(d.cs).size()
+    h.ensure("ens.cs", h.n(pads.cs_n) == ~(h.v(d.cs) & z3.If(z3.Or(xfer, b(h.v(d.cs_mode))), K((1 << ncs_) - 1, ncs_), K(0, ncs_))))       # every selected line, and only those, framed by the transfer (or held in manual mode)
     # MSB-first data: during the k-th clock period of the transfer MOSI carries bit (top - k) of the word latched at start
     gd = h.ghost("gdata", dw); h.ghost_next(gd, z3.If(z3.And(idle, b(h.v(d.start))), h.v(d.mosi), gd))
     md = L(d, "mosi_data"); ms = L(d, "mosi_sel")
@@ -191,7 +193,7 @@ def c_waittimer(t):
 def cases(tier):
     cs = [Case(f"WaitTimer({t})", c_waittimer, t) for t in (1, 3, 8, 100)] + [Case("Timer(8)", c_timer, 8), Case("Timer(32)", c_timer, 32), Case("Watchdog(8)", c_watchdog, 8), Case("Watchdog(32)", c_watchdog, 32),
           Case("RS232ClkPhaseAccum", c_phase_accum), Case("RS232PHYTX", c_uart_tx),
-          Case("SPIMaster(8,raw)", c_spi, 8, "raw"), Case("SPIMaster(8,aligned)", c_spi, 8, "aligned")]
+          Case("SPIMaster(8,raw)", c_spi, 8, "raw"), Case("SPIMaster(8,aligned)", c_spi, 8, "aligned"), Case("SPIMaster(8,raw,cs=4)", c_spi, 8, "raw", 4)]
     if tier == "thorough": cs += [Case("SPIMaster(16,raw)", c_spi, 16, "raw"), Case("SPIMaster(32,aligned)", c_spi, 32, "aligned")]
     return cs
 
